@@ -301,6 +301,7 @@ def main():
                 r = td.repeat(*args[0]) if kind == "repeat" else td.repeat_interleave(args[0], dim=args[1])
             impl = ["ok", L.canon(r)]
         except Exception as e:  # noqa: BLE001
+            L.slow_is_infra(e)
             impl = ["err", L.err_class(e)]
         run.case((kind, str(args), L.spec_sx(spec)))
         run.count("rep.outcome", impl[0] if impl[0] == "ok" else "err:" + impl[1])
@@ -349,6 +350,7 @@ def main():
                 r = td.gather(d, index)
             impl = ["ok", L.canon(r)]
         except Exception as e:  # noqa: BLE001
+            L.slow_is_infra(e)
             impl = ["err", L.err_class(e)]
         run.case(("gather", d, str(ishape), str(vals), L.spec_sx(spec)))
         run.count("gather.outcome", impl[0] if impl[0] == "ok" else "err:" + impl[1])
@@ -375,6 +377,7 @@ def main():
                 r = td.masked_select(mask)
             impl = ["ok", L.canon(r)]
         except Exception as e:  # noqa: BLE001
+            L.slow_is_infra(e)
             impl = ["err", L.err_class(e)]
         run.case(("masked_select", str(mshape), str(vals), L.spec_sx(spec)))
         run.count("msel.outcome", impl[0] if impl[0] == "ok" else "err:" + impl[1])
@@ -449,6 +452,14 @@ def main():
                 specs = specs[:-1] + [L.drop_key(specs[-1], specs[-1][3][0][0])]        # mismatching key sets
             elif r < 0.6 and n:
                 specs = specs[:-1] + [L.resize_dim(specs[-1], rng.randrange(n), 5)]   # mismatching sizes
+        if k > 1 and rng.random() < 0.5:
+            # operands filled in different key orders: entries are paired by KEY (model: `lookupEntry`)
+            def _rot(sp_, r_):
+                ents = [(kk, (_rot(e, r_) if e[0] == "node" else e)) for kk, e in sp_[3]]
+                if ents:
+                    ents = ents[r_ % len(ents):] + ents[:r_ % len(ents)]
+                return ("node", sp_[1], sp_[2], ents)
+            specs = [_rot(sp, j) for j, sp in enumerate(specs)]
         sc_cases.append((kind, specs, d))
         sc_lines.append(f"(c02.{kind} {d} " + " ".join(L.spec_sx_off(sp, 100000 * j) for j, sp in enumerate(specs)) + ")")
     for (kind, specs, d), ans in zip(sc_cases, ask_chunked(drv, sc_lines)):
@@ -458,6 +469,7 @@ def main():
                 r = (_torch.stack if kind == "stack" else _torch.cat)(tds, d)
             impl = ["ok", L.canon_sorted(r)]
         except Exception as e:  # noqa: BLE001
+            L.slow_is_infra(e)
             impl = ["err", L.err_class(e)]
         m = parse_sx(ans)
         model = ["ok", L.sort_parsed(m[1])] if m[0] == "ok" else m
